@@ -658,6 +658,18 @@ Definition upd (m : inmsg) (adv : list str) : list str :=
   | _ => adv
   end.
 
+(* what the server itself acknowledged on this connection (CAP ACK adds; a driver reset starts over) *)
+Definition upd_ack (m : inmsg) (a : list str) : list str :=
+  match m with
+  | ICap args =>
+      match cap_sub args with
+      | Some sub => if seq_eqb sub [97;99;107] then match args with [_; _; caps] => sunion a (words caps) | _ => a end else a
+      | None => a
+      end
+  | IReset => []
+  | _ => a
+  end.
+
 (* ---- the nick generator: Irc.do43x / Irc._getNextNick ----
    The registration machine above answers every nick rejection with a NICK
    (do43x s).  The refinement below adds what _getNextNick really does: it pops
@@ -821,6 +833,7 @@ Definition vMsg (m : inmsg) : value :=
    run (5 (srv choices history)) -> messages             the conformant-server strategy
    run (7 (srv plan k choices history)) -> messages      the conformant server that also rejects nicks
    run (8 (msg advertised)) -> advertised'               the server-side advertised set after a message
+   run (9 (msg acked)) -> acked'                         what the server acknowledged after a message
    run (6 string) -> chunks                              authenticate_generator(string, base64ify=False) *)
 Definition run (v : value) : value :=
   let p := nth_v 1 v in
@@ -832,6 +845,7 @@ Definition run (v : value) : value :=
                                 (map gN (gL (nth_v 3 p))) (map (fun b => map gOut (gL b)) (gL (nth_v 4 p)))))
   | 1 => vO (fun pd => L [I (fst pd); I (snd pd)]) (parseStsPolicy2 (gS (nth_v 0 p)) (gB (nth_v 1 p)))
   | 8 => vLS (upd (gMsg (nth_v 0 p)) (gLS (nth_v 1 p)))
+  | 9 => vLS (upd_ack (gMsg (nth_v 0 p)) (gLS (nth_v 1 p)))
   | 6 => vLS (auth_gen (gS p))
   | 5 => L (map vMsg (strategy (gSrv (nth_v 0 p)) (map gN (gL (nth_v 1 p))) (map (fun b => map gOut (gL b)) (gL (nth_v 2 p)))))
   | _ => L []
